@@ -21,6 +21,11 @@ CHECKS = {
           "Random schemas with fast keyword/i64/f64 fields and nested objects up to three levels, documents with arrays of parent objects holding child arrays, and And/Or/Not/Nested filter trees (sibling Nested on one path, Nested inside Nested, dotted paths, type-mismatched clauses). Each filter is run through request.filter, bool.filter and constant_score.filter and the hit-id set must equal the harness's independent evaluator of the documented semantics.",
           "Trusted: harness/src/fmodel.rs (the documented filter semantics as read from the README). Null members of nested arrays and dotted field names inside a Nested clause are not generated (unspecified).",
           "DESIGN.md §5 C08"),
+  "C14": ("exploration",
+          "metamorphic property-based testing (before/after Index::compact on generated histories, queries and filters)",
+          "Generated schemas (mostly compactable, some not), histories of 1-5 commits with upserts and deletes over nested / multi-valued / null / empty values, 10 queries and 10 filter trees: live ids, stored fields and every query/filter id set are captured before and after compaction, through the same Index and a fresh open, and must be equal; segment count and tombstones are checked after a rewrite; a refusal must leave everything unchanged.",
+          "Trusted: nothing but the comparison itself (no reference model needed). Differences confined to documents without any scored term of the query are attributed to the listed C07 finding (dictionary terms of deleted documents disappear at compaction) and counted as excluded.",
+          "DESIGN.md §5 C14"),
   "C15": ("exploration",
           "property-based testing with structural JSON mutation of schema-valid documents against an independent schema validator",
           "Random schemas and schema-valid documents are mutated by 1-3 structural edits (undeclared keys, replaced/wrapped/removed nodes, id edits). Oracle: add_document Ok implies commit Ok and a later valid document through a fresh writer commits; a document violating a documented rule (independent validator in the harness) must be rejected at add_document. Tens of thousands of documents per quick run.",
